@@ -30,6 +30,53 @@ ORDERING_CALLS = {"sorted", "min", "max", "numpy.sort", "numpy.argsort", ".sort"
                   "numpy.argmax", "numpy.argmin", "hash", "sum", "numpy.sum", ".argsort", "reversed"}
 
 
+def check_binarizer_pairing(ctx, F, rule):
+    """The binarizer is applied to (decision, reward) of one and the same observation (shared by C14 and C20)."""
+    prog = ctx.prog
+    fb = prog.method("_ThompsonSampling", "_get_binary_rewards")
+    ctx.saw_fn(fb)
+    gens = [g for g in ast.walk(fb.node) if isinstance(g, ast.GeneratorExp)]
+    ok = False
+    if gens:
+        g = gens[0]
+        tgt = ast.unparse(g.generators[0].target)
+        it = ast.unparse(g.generators[0].iter)
+        call = g.elt
+        if isinstance(g.generators[0].target, ast.Tuple) and it == "enumerate(rewards)" and \
+                isinstance(call, ast.Call):
+            idx, val = [ast.unparse(e) for e in g.generators[0].target.elts]
+            ok = [ast.unparse(a) for a in call.args] == ["decisions[%s]" % idx, val] and \
+                ast.unparse(call.func) == "self.binarizer"
+    ctx.check(ok, rule, "the binarizer receives the decision and the reward of the same row", fb.node, fb,
+              construct="def _ThompsonSampling._get_binary_rewards")
+    # on the traces: decisions and rewards handed to _get_binary_rewards stem from the same rows
+    from ..facts import calls_of
+    n_al = 0
+    for c in F.configs(lp=["ThompsonSampling"], binarizer=True):
+        for lab in ("fit", "partial_fit"):
+            root = F.trace(c, lab)
+            w = F.focus(c, root)
+            for ev, anc in calls_of(root, name="_get_binary_rewards"):
+                dv, rv = ev.a["args"].get("decisions"), ev.a["args"].get("rewards")
+                if dv is None or rv is None:
+                    continue
+
+                def hist(v):
+                    return any(isinstance(d, tuple) and len(d) == 2 and isinstance(d[0], int) and d[1] and
+                               d[1][0] in (".decisions", ".rewards", ".raw_rewards") for d in v.deps)
+
+                def batch(v, name):
+                    return ("param", name) in v.deps
+                n_al += 1
+                aligned = hist(dv) == hist(rv) and batch(dv, "decisions") and batch(rv, "rewards")
+                caller = anc[-1].a["callee"] if anc and anc[-1].kind == "call" else ev.fn
+                ctx.check(aligned, rule, "the binarizer is given decisions and rewards of the same rows", ev.node,
+                          caller, "decisions %s the stored history, rewards %s: (decision, reward) pairs are "
+                          "misaligned [%s %s]" % ("include" if hist(dv) else "exclude",
+                                                  "include it" if hist(rv) else "exclude it", c.name, lab))
+    ctx.floor(rule, "binarizer call sites on training traces", n_al, 10)
+
+
 def check(ctx):
     F = facts(ctx)
     prog = ctx.prog
@@ -97,48 +144,7 @@ def check(ctx):
     ctx.floor("R20.1", "external calls receiving label collections", n_tagged, 300)
     # ---- R20.2
     check_selectors(ctx, "R20.2")
-    fb = prog.method("_ThompsonSampling", "_get_binary_rewards")
-    ctx.saw_fn(fb)
-    gens = [g for g in ast.walk(fb.node) if isinstance(g, ast.GeneratorExp)]
-    ok = False
-    if gens:
-        g = gens[0]
-        tgt = ast.unparse(g.generators[0].target)
-        it = ast.unparse(g.generators[0].iter)
-        call = g.elt
-        if isinstance(g.generators[0].target, ast.Tuple) and it == "enumerate(rewards)" and \
-                isinstance(call, ast.Call):
-            idx, val = [ast.unparse(e) for e in g.generators[0].target.elts]
-            ok = [ast.unparse(a) for a in call.args] == ["decisions[%s]" % idx, val] and \
-                ast.unparse(call.func) == "self.binarizer"
-    ctx.check(ok, "R20.2", "the binarizer receives the decision and the reward of the same row", fb.node, fb,
-              construct="def _ThompsonSampling._get_binary_rewards")
-    # on the traces: decisions and rewards handed to _get_binary_rewards stem from the same rows
-    from ..facts import calls_of
-    n_al = 0
-    for c in F.configs(lp=["ThompsonSampling"], binarizer=True):
-        for lab in ("fit", "partial_fit"):
-            root = F.trace(c, lab)
-            w = F.focus(c, root)
-            for ev, anc in calls_of(root, name="_get_binary_rewards"):
-                dv, rv = ev.a["args"].get("decisions"), ev.a["args"].get("rewards")
-                if dv is None or rv is None:
-                    continue
-
-                def hist(v):
-                    return any(isinstance(d, tuple) and len(d) == 2 and isinstance(d[0], int) and d[1] and
-                               d[1][0] in (".decisions", ".rewards", ".raw_rewards") for d in v.deps)
-
-                def batch(v, name):
-                    return ("param", name) in v.deps
-                n_al += 1
-                aligned = hist(dv) == hist(rv) and batch(dv, "decisions") and batch(rv, "rewards")
-                caller = anc[-1].a["callee"] if anc and anc[-1].kind == "call" else ev.fn
-                ctx.check(aligned, "R20.2", "the binarizer is given decisions and rewards of the same rows", ev.node,
-                          caller, "decisions %s the stored history, rewards %s: (decision, reward) pairs are "
-                          "misaligned [%s %s]" % ("include" if hist(dv) else "exclude",
-                                                  "include it" if hist(rv) else "exclude it", c.name, lab))
-    ctx.floor("R20.2", "binarizer call sites on training traces", n_al, 10)
+    check_binarizer_pairing(ctx, F, "R20.2")
     fg = prog.method("_Neighbors", "_get_nhood_predictions")
     fits = [c for c in ast.walk(fg.node) if isinstance(c, ast.Call) and ast.unparse(c.func) == "lp.fit"]
     ok3 = len(fits) == 1 and len({ast.unparse(a.slice) for a in fits[0].args if isinstance(a, ast.Subscript)}) == 1 \
